@@ -199,6 +199,8 @@ def _worker(args):
     prop, profile, base_seed, idxs, opts = args
     faulthandler.dump_traceback_later(opts.get('watchdog', 300), exit=True)
     out = []
+    findings = load_findings(prop)
+    task_sigs = set()
     try:
         for i in idxs:
             try:
@@ -212,6 +214,21 @@ def _worker(args):
                 # minimise here, in the worker
                 v0 = res['violations'][0]
                 sig = sig_of(v0)
+                if any(f.status == 'open' and f.matches(v0) for f in findings):
+                    # a re-observation of a listed open finding: counted and reported as KNOWN-FINDING by the parent;
+                    # no minimisation and no replay file (hundreds per run would only fill the disk)
+                    res.pop('trace', None)
+                    res.pop('cfg', None)
+                    out.append(res)
+                    continue
+                if sig in task_sigs:
+                    # the same violation again within this batch of runs: the first one carries the replay file
+                    res['dup'] = True
+                    res.pop('trace', None)
+                    res.pop('cfg', None)
+                    out.append(res)
+                    continue
+                task_sigs.add(sig)
                 try:
                     events, nexec = minimise(prop, res['cfg'], res['trace'], sig,
                                              budget_s=opts.get('min_budget', 15.0))
@@ -332,6 +349,8 @@ def run_check(prop, tier, base_seed, workers=None, quiet=False):
     seen_sigs = set()
     for r in new:
         sig = sig_of(r['violations'][0])
+        if r.get('dup'):
+            continue
         if 'replay' not in r:
             harness_errors.append('violation without replay file: %r' % (sig,))
             continue
